@@ -277,14 +277,14 @@ pub fn check_leap(st: &mut Stats, c: &Leap) {
     st.op(Op::TS_now);
     if let Ok(t) = Timestamp::now() {
         st.obs(Op::TS_now, &t);
-        if !(lo..=lo + 1_000_000).contains(&t.usecs()) {
+        if !(lo..=(lo + 1_000_000).min(TS_MAX)).contains(&t.usecs()) {
             st.fail("C18/now/Timestamp/leap-second", format!("clock day {} 23:59:60.{:06} -> {}", c.day, c.us, t.usecs()));
         }
     }
     st.op(Op::O_now);
     if let Ok(t) = OracleDate::now() {
         st.obs(Op::O_now, &t);
-        if !(lo..=lo + 1_000_000).contains(&t.usecs()) || t.usecs().rem_euclid(1_000_000) != 0 {
+        if !(lo..=(lo + 1_000_000).min(ORA_MAX)).contains(&t.usecs()) || t.usecs().rem_euclid(1_000_000) != 0 {
             st.fail("C18/now/OracleDate/leap-second", format!("clock day {} 23:59:60.{:06} -> {}", c.day, c.us, t.usecs()));
         }
     }
@@ -331,6 +331,12 @@ pub fn run(ctx: &Ctx, st: &mut Stats) {
             st.eval(&Leap { day: day as i32, us }, check_leap);
         }
         day += lstep;
+    }
+    // the leap second that ends the last supported day: nothing after 9999-12-31 23:59:59.999999 is a value
+    for us in [0u32, 1, 250_000, 499_999, 500_000, 999_999] {
+        st.eval(&Leap { day: MAX_DAY, us }, check_leap);
+        st.eval(&Leap { day: MAX_DAY - 1, us }, check_leap);
+        st.eval(&Leap { day: MIN_DAY, us }, check_leap);
     }
     // complete pictures under two very different clocks must agree with each other (no model involved)
     st.stratum("complete pictures under two clocks", true);
